@@ -139,6 +139,9 @@ pub struct JobCtx {
     pub idle_ok: AtomicBool,
     /// messages of the panics raised on this job's threads (filled by the process panic hook)
     pub panics: Mutex<Vec<String>>,
+    /// (host, what the collector returned) for hosts whose `execute_blocking` panicked: the sinks
+    /// are read nevertheless, a failed run must not have published anything
+    pub post_panic: Mutex<Vec<(usize, Box<dyn std::any::Any + Send>)>>,
 }
 
 impl JobCtx {
@@ -162,6 +165,7 @@ impl JobCtx {
             gate_cv: Condvar::new(),
             idle_ok: AtomicBool::new(false),
             panics: Mutex::new(Vec::new()),
+            post_panic: Mutex::new(Vec::new()),
         })
     }
 
